@@ -943,6 +943,11 @@ def collision(
   d.ncollision.zero_()
   if not incremental:
     d.nacon.zero_()
+    if m.nflex > 0:
+      # geom-geom contacts do not write these: -1 unless flex_collision sets them
+      d.contact.flex.fill_(-1)
+      d.contact.elem.fill_(-1)
+      d.contact.vert.fill_(-1)
 
   if m.opt.broadphase == BroadphaseType.NXN:
     nxn_broadphase(m, d, ctx, awake_prev)
